@@ -12,7 +12,7 @@ pub enum Act {
 }
 
 // abstract view of a CommandState
-pub enum CsV { Pending, Running { cid: int }, Finished { status: ProcessEnd, started: Instant, finished: Instant } }
+pub enum CsV { Pending, Running { cid: int, started: Instant }, Finished { status: ProcessEnd, started: Instant, finished: Instant } }
 
 pub struct Env {
     pub now: Ghost<nat>,             // virtual monotonic clock
@@ -148,13 +148,13 @@ pub struct Child { pub cid: int }
 impl Child {
     #[verifier::external_body]
     pub fn kill(&mut self, env: &mut Env) -> (r: Result<(), IoError>)
-        ensures final(self).cid == old(self).cid, arrivals_only(old(env), final(env)),
+        ensures final(self).cid == old(self).cid, final(env).now@ >= old(env).now@,
             final(env).log@ == old(env).log@.push(Act::Kill { cid: old(self).cid, ok: r is Ok }),
             final(env).live == old(env).live, final(env).raised == old(env).raised,
     { unimplemented!() }
     #[verifier::external_body]
     pub fn wait(&mut self, env: &mut Env) -> (r: Result<ExitStatus, IoError>)
-        ensures final(self).cid == old(self).cid, arrivals_only(old(env), final(env)),
+        ensures final(self).cid == old(self).cid, final(env).now@ >= old(env).now@,
             final(env).log@ == old(env).log@.push(Act::Wait { cid: old(self).cid, ok: r is Ok }),
             r is Ok ==> final(env).live@ == old(env).live@.remove(old(self).cid),
             r is Err ==> final(env).live == old(env).live,
@@ -162,7 +162,7 @@ impl Child {
     { unimplemented!() }
     #[verifier::external_body]
     pub fn signal(&mut self, sig: NixSignal, env: &mut Env) -> (r: Result<(), IoError>)
-        ensures final(self).cid == old(self).cid, arrivals_only(old(env), final(env)),
+        ensures final(self).cid == old(self).cid, final(env).now@ >= old(env).now@,
             final(env).log@ == old(env).log@.push(Act::Signal { cid: old(self).cid, nix: sig.n, ok: r is Ok }),
             final(env).live == old(env).live, final(env).raised == old(env).raised,
     { unimplemented!() }
@@ -183,7 +183,7 @@ impl Spawnable {
     // TokioCommandWrap::spawn
     #[verifier::external_body]
     pub fn spawn(&mut self, env: &mut Env) -> (r: Result<Child, IoError>)
-        ensures arrivals_only(old(env), final(env)), final(env).raised == old(env).raised, final(self).ver == old(self).ver,
+        ensures final(env).now@ >= old(env).now@, final(env).raised == old(env).raised, final(self).ver == old(self).ver,
             r is Ok ==> !old(env).live@.contains(r->Ok_0.cid) && final(env).live@ == old(env).live@.insert(r->Ok_0.cid)
                 && final(env).log@ == old(env).log@.push(Act::Spawn { ok: true, cid: r->Ok_0.cid, ver: old(self).ver }),
             r is Err ==> final(env).live == old(env).live
@@ -214,21 +214,21 @@ impl SpawnHook {
     // generated by the `sync_async_callbox!` macro in task.rs (not extracted): calls the stored closure once
     #[verifier::external_body]
     pub fn call(&self, command: &mut Spawnable, context: &JobTaskContext<'_>, env: &mut Env)
-        ensures arrivals_only(old(env), final(env)), final(env).live == old(env).live, final(env).raised == old(env).raised,
+        ensures final(env).now@ >= old(env).now@, final(env).live == old(env).live, final(env).raised == old(env).raised,
             final(env).log@ == old(env).log@.push(Act::Hook { inp: old(command).ver, out: final(command).ver, cur: cs_view(context.current), prev: opt_view(context.previous) }),
     { unimplemented!() }
 }
 impl ErrorHandler {
     #[verifier::external_body]
     pub fn call(&self, error: SyncIoError, env: &mut Env)
-        ensures arrivals_only(old(env), final(env)), final(env).live == old(env).live, final(env).raised == old(env).raised,
+        ensures final(env).now@ >= old(env).now@, final(env).live == old(env).live, final(env).raised == old(env).raised,
             final(env).log@ == old(env).log@.push(Act::ErrH),
     { unimplemented!() }
 }
 impl SyncFunc {
     #[verifier::external_body]
     pub fn call_once(self, context: &JobTaskContext<'_>, env: &mut Env)
-        ensures arrivals_only(old(env), final(env)), final(env).live == old(env).live, final(env).raised == old(env).raised,
+        ensures final(env).now@ >= old(env).now@, final(env).live == old(env).live, final(env).raised == old(env).raised,
             final(env).log@ == old(env).log@.push(Act::Func { cur: cs_view(context.current), prev: opt_view(context.previous) }),
     { unimplemented!() }
 }
@@ -236,7 +236,7 @@ impl AsyncFunc {
     // returns the boxed future, awaited by the caller (R1 drops the await): call + completion are one step
     #[verifier::external_body]
     pub fn call_once(self, context: &JobTaskContext<'_>, env: &mut Env)
-        ensures arrivals_only(old(env), final(env)), final(env).live == old(env).live, final(env).raised == old(env).raised,
+        ensures final(env).now@ >= old(env).now@, final(env).live == old(env).live, final(env).raised == old(env).raised,
             final(env).log@ == old(env).log@.push(Act::Func { cur: cs_view(context.current), prev: opt_view(context.previous) }),
     { unimplemented!() }
 }
@@ -323,3 +323,7 @@ pub open spec fn select_post(bs: Seq<Branch>, i: int, pre: &Env, post: &Env) -> 
 pub fn vx_select3(b0: Branch, b1: Branch, b2: Branch, env: &mut Env) -> (i: usize)
     ensures select_post(seq![b0, b1, b2], i as int, old(env), final(env)),
 { unimplemented!() }
+
+// a select! arm whose `if` guard is false is never run
+#[verifier::external_body]
+pub fn vx_branch_disabled<T>() -> (r: T) ensures false { unimplemented!() }
